@@ -111,17 +111,24 @@ def walkIdx (position : α) : List (α × ι) → α → Option Nat
       let summed' := summed + r
       if position ≤ summed' then some 0 else (walkIdx position rest summed').map (· + 1)
 
-/-- loop + `return self._associated_identifiers[-1]` -/
-def select (o : Ops α) (position : α) (neg : List (α × ι)) : Except LiftErr ι :=
+/-- loop + `return self._associated_identifiers[-1]`, as the index into the table of negative rates
+that the method reads the identifier from (`[-1]` on an empty list raises `IndexError`) -/
+def selectIdx (o : Ops α) (position : α) (neg : List (α × ι)) : Except LiftErr Nat :=
   match walkIdx position neg (o.ofInt 0) with
-  | some k =>
-      match neg[k]? with
-      | some e => .ok e.2
-      | none => .error .index      -- unreachable (`walkIdx_lt`), kept total
-  | none =>
-      match neg.getLast? with
-      | some e => .ok e.2
-      | none => .error .index
+  | some k => .ok k
+  | none => if neg.isEmpty then .error .index else .ok (neg.length - 1)
+
+/-- `self._associated_identifiers[index]` -/
+def lookup (neg : List (α × ι)) (k : Nat) : Except LiftErr ι :=
+  match neg[k]? with
+  | some e => .ok e.2
+  | none => .error .index      -- unreachable after `selectIdx`, kept total
+
+/-- the common tail of the three `get_active_identifier` methods: the identifier returned -/
+def select (o : Ops α) (position : α) (neg : List (α × ι)) : Except LiftErr ι :=
+  match selectIdx o position neg with
+  | .ok k => lookup neg k
+  | .error e => .error e
 
 /-- `InsideFirstLifting.get_active_identifier` -/
 def getInside (o : Ops α) (s : Lifting α ι) : Except LiftErr ι :=
@@ -157,6 +164,14 @@ inductive Scheme where
   | inside | outside | ratio
 deriving Repr, DecidableEq
 
+/-- the position handed to the common loop by each scheme, for a filled table
+(`u2` is only read by the ratio scheme; the outside scheme also stores it back, see `getOutside`) -/
+def position (o : Ops α) (sch : Scheme) (s : Lifting α ι) (u2 : α) : α :=
+  match sch with
+  | .inside => s.pos
+  | .outside => pySum o (s.neg.map (·.1)) - s.pos
+  | .ratio => pyUniform (o.ofInt 0) (pySum o (s.neg.map (·.1))) u2
+
 /-- one complete lifting move: fill the table with entry `a` active (draw `u`), ask the scheme
 (`u2` is only read by the ratio scheme). -/
 def choose (o : Ops α) (sch : Scheme) (tbl : List (α × ι)) (a : Nat) (u u2 : α) : Except LiftErr ι :=
@@ -167,6 +182,13 @@ def choose (o : Ops α) (sch : Scheme) (tbl : List (α × ι)) (a : Nat) (u u2 :
     | .inside => getInside o s
     | .outside => (getOutside o s).2
     | .ratio => getRatio o s u2
+
+/-- the same move, reporting the index into the list of non-positive entries instead of the identifier
+stored there (specification helper: `choose = chooseIdx >>= lookup`, theorem `choose_eq`) -/
+def chooseIdx (o : Ops α) (sch : Scheme) (tbl : List (α × ι)) (a : Nat) (u u2 : α) : Except LiftErr Nat :=
+  match fill o tbl a u with
+  | .error e => .error e
+  | .ok s => if !s.recorded then .error .notRecorded else selectIdx o (position o sch s u2) s.neg
 
 end Lifting
 end JF
